@@ -11,10 +11,13 @@ KNOWN = os.path.join(VERIF, 'known_findings.json')
 
 class Finding:
     def __init__(self, prop, rule, key, message, file=None, function=None,
-                 line=None, path=None, extra=None):
+                 line=None, path=None, extra=None, items=None):
         self.prop, self.rule, self.key = prop, rule, key
         self.message, self.file, self.function = message, file, function
         self.line, self.path, self.extra = line, path, extra
+        # atomic failing items (e.g. characters); a known finding covers this
+        # one only if it lists every item
+        self.items = sorted(items) if items is not None else None
 
     def to_json(self):
         d = {'property': self.prop, 'rule': self.rule, 'key': self.key,
@@ -24,6 +27,8 @@ class Finding:
             d['path'] = self.path
         if self.extra:
             d['extra'] = self.extra
+        if self.items is not None:
+            d['items'] = self.items
         return d
 
     def where(self):
@@ -63,11 +68,11 @@ class RuleResult:
                                            nontrivial))
 
     def fail(self, key, message, file=None, function=None, line=None,
-             path=None, what=None, extra=None):
+             path=None, what=None, extra=None, items=None):
         self.obligations.append(Obligation(
             self.rule, what or message, '%s:%s' % (file, line), 'VIOLATED'))
         self.findings.append(Finding(self.prop, self.rule, key, message, file,
-                                     function, line, path, extra))
+                                     function, line, path, extra, items))
 
     def note(self, s):
         self.notes.append(s)
@@ -77,6 +82,24 @@ class RuleResult:
                 'instances': self.instances, 'floor': self.floor,
                 'obligations': len(self.obligations),
                 'violated': len(self.findings), 'notes': self.notes}
+
+
+def known_for(prop, known=None):
+    known = known or load_known()
+    return [k for k in known.get('findings', [])
+            if k.get('property') == prop or prop in k.get('also', [])]
+
+
+def match_known(f, entries):
+    """The known-finding entry that covers finding f, or None."""
+    for k in entries:
+        if k['key'] != f.key:
+            continue
+        if f.items is None:
+            return k
+        if set(f.items) <= set(k.get('items', [])):
+            return k
+    return None
 
 
 def load_known():
@@ -99,11 +122,7 @@ def emit(prop, tier, seed, results, project, t0, explanation, not_decided,
          trusted_base, assumptions, extra_cov=None, selftest=None,
          functions_analysed=None, call_sites=None):
     """Print the report, write evidence + replay files, return exit code."""
-    known = load_known()
-    known_by_key = {}
-    for k in known.get('findings', []):
-        if k.get('property') == prop or prop in k.get('also', []):
-            known_by_key[k['key']] = k
+    entries = known_for(prop)
     os.makedirs(REPLAY_DIR, exist_ok=True)
     # remove stale replay files of this property
     for f in os.listdir(REPLAY_DIR):
@@ -117,8 +136,9 @@ def emit(prop, tier, seed, results, project, t0, explanation, not_decided,
             floors_bad.append('%s: %d instances < floor %d' % (
                 r.rule, r.instances, r.floor))
         for f in r.findings:
-            if f.key in known_by_key:
-                knowns.append((f, known_by_key[f.key]))
+            k = match_known(f, entries)
+            if k is not None:
+                knowns.append((f, k))
             else:
                 violations.append(f)
     if floors_bad:
